@@ -1,4 +1,5 @@
 import GwcsModel.Tab
+import GwcsProofs.C11b
 import Mathlib.Tactic.FieldSimp
 import Mathlib.Tactic.Ring
 import Mathlib.Tactic.Linarith
